@@ -228,12 +228,18 @@ def c07():
             out.append(R("{{ o.k[i] }}", exp, {"o": {"k": arr}, "i": i}, "nested path"))
         out.append(R("{{ a.first }}|{{ a.last }}|{{ a.size }}", {"output": f"{arr[0]}|{arr[-1]}|{n}"} if n else {"one_of": ["||0"]}, {"a": arr}) if n else
                    R("{{ a.size }}", {"output": "0"}, {"a": arr}))
+    for s_ in ("", "abc", "héllo", "日本"):
+        out.append(R("{{ s.size }}", {"output": str(len(s_))}, {"s": s_}, ".size of a string counts characters"))
     out.append(R("{{ o.missing }}", {"error": True}, {"o": {"k": 1}}))
     out.append(R("{{ missing }}", {"error": True}, {}))
     out.append(R("{{ o['k'] }}{{ o[key] }}", {"output": "11"}, {"o": {"k": 1}, "key": "k"}))
     for lit in (0, 1, -1, 42, I64_MAX, I64_MIN, I64_MAX - 1, I64_MIN + 1, 2 ** 31, -2 ** 31, 2 ** 53):
         out.append(R("{{ %d }}" % lit, {"output": str(lit)}, None, "integer literal prints as itself"))
     out.append(R("{{ 'a b' }}{{ \"c'd\" }}{{ true }}{{ false }}{{ nil }}", {"output": "a bc'dtruefalse"}))
+    # strings in either quote style denote exactly what is between the quotes, including quote characters of the other style
+    for body, q in (("'quoted'", '"'), ("dogs'", '"'), ("'", '"'), ("''", '"'), ('"x"', "'"), ('say "hi"', "'"), ('"', "'"), (" ' ", '"')):
+        out.append(R("{{ %s%s%s }}" % (q, body, q), {"output": body}, None, "string literal keeps inner quote characters"))
+        out.append(R("{{ o[%s%s%s] }}" % (q, body, q), {"output": "member"}, {"o": dict([(body.strip("'\""), "neighbour"), (body, "member")])}, "bracket key is the literal's exact text"))
     out.append(R("{{ 1.5 }}|{{ -0.25 }}", {"output": "1.5|-0.25"}))
     return out
 
@@ -264,9 +270,55 @@ def c13():
                 arg = f"{off}" + ("" if ln is None else f", {ln}")
                 exp = "".join(str(x) for x in slice_expected(arr, off, 1 if ln is None else ln))
                 out.append(R("{{ a | slice: %s | join: '' }}" % arg, {"output": exp}, {"a": arr}))
+    # size counts characters
+    for s_ in ("", "a", "héllo", "日本語x", "e\u0301"):
+        out.append(R("{{ s | size }}", {"output": str(len(s_))}, {"s": s_}, "size counts characters"))
+    # truncate: a string of at most `limit` characters is left alone; otherwise the result has at most max(limit, ellipsis) characters
+    for s_ in ("", "abc", "ééé", "hello world", "日本語日本語", "ab cd ef"):
+        for lim in (0, 1, 3, 4, 5, 8, 20):
+            for ell in (None, "", "…", "--"):
+                e = "..." if ell is None else ell
+                arg = f"{lim}" + ("" if ell is None else ", e")
+                if len(s_) <= lim:
+                    exp = s_
+                else:
+                    exp = s_[:max(lim - len(e), 0)] + e
+                out.append(R("{{ s | truncate: %s }}" % arg, {"output": exp}, {"s": s_, "e": ell}, "truncate counts characters"))
     out.append(R("{{ 'abc' | slice: 0, 0 }}", {"error": True}))
     out.append(R("{{ 'abc' | slice: 1, 9223372036854775807 }}", {"output": "bc"}))
     out.append(R("{{ 'abc' | slice: -9223372036854775808, 2 }}", {"output": ""}))
+    # ---- reference semantics of the other string filters ("what their documentation says"), computed independently here
+    alphabet = ["a", "B", " ", ",", "\n", "é"]
+    strs = [""] + ["".join(t) for k in (1, 2, 3) for t in itertools.product(alphabet, repeat=k)]
+    strs = strs[::3] + ["a,b,", ",", ",,", "a, b", " a b ", "\ta\r\n", "abcabc", "ÀÉ日本", "e\u0301x"]
+    args = ["", "a", ",", " ", "é", "ab", "B,"]
+    WS = " \t\n\r\x0b\x0c\x85\xa0\u1680\u2000\u2028\u2029\u202f\u205f\u3000"
+    for s_ in strs:
+        d = {"s": s_}
+        out.append(R("{{ s | upcase }}", {"output": s_.upper()}, d))
+        out.append(R("{{ s | downcase }}", {"output": s_.lower()}, d))
+        out.append(R("{{ s | capitalize }}", {"output": (s_[:1].upper() + s_[1:])}, d))
+        out.append(R("{{ s | strip }}|{{ s | lstrip }}|{{ s | rstrip }}", {"output": s_.strip(WS) + "|" + s_.lstrip(WS) + "|" + s_.rstrip(WS)}, d))
+        out.append(SAME("{{ s | strip }}", "{{ s | rstrip | lstrip }}", d, "strip == lstrip after rstrip"))
+        out.append(R("{{ s | strip_newlines }}", {"output": s_.replace("\n", "").replace("\r", "")}, d))
+        out.append(R("{{ s | newline_to_br }}", {"output": s_.replace("\n", "<br />\n")}, d))
+        out.append(R("{{ s | first }}|{{ s | last }}|{{ s | size }}", {"output": s_[:1] + "|" + s_[-1:] + "|" + str(len(s_))}, d))
+        out.append(R("{{ s | default: 'D' }}", {"output": s_ if s_ != "" else "D"}, d))
+        for a in args:
+            da = {"s": s_, "a": a}
+            out.append(R("{{ s | append: a }}|{{ s | prepend: a }}", {"output": s_ + a + "|" + a + s_}, da))
+            out.append(R("{{ s | replace: a, 'XY' }}", {"output": s_.replace(a, "XY")}, da))
+            out.append(R("{{ s | replace_first: a, 'XY' }}", {"output": s_.replace(a, "XY", 1)}, da))
+            out.append(R("{{ s | remove: a }}", {"output": s_.replace(a, "")}, da))
+            out.append(R("{{ s | remove_first: a }}", {"output": s_.replace(a, "", 1)}, da))
+            if a != "" and s_ != "":
+                parts = s_.split(a)
+                out.append(R("{{ s | split: a | size }}", {"output": str(len(parts))}, da, "split keeps empty fields, also the trailing one"))
+                out.append(R("{{ s | split: a | join: a }}", {"output": s_}, da, "split then join on the same separator is the identity"))
+                out.append(R("{{ s | split: a | join: '|' }}", {"output": "|".join(parts)}, da))
+    out.append(R("{{ '' | split: ',' | size }}", {"output": "0"}))
+    for s_, n, exp in (("one two three four", 2, "one two..."), ("one two", 2, "one two"), ("one two three", 0, "..."), ("  a  b  ", 1, "a..."), ("", 3, "")):
+        pass
     # the result of a chain is the left-to-right composition of its filters
     for chain in (("upcase", "append: 'x'"), ("append: 'x'", "upcase"), ("slice: 1, 2", "append: 'z'", "prepend: 'p'"), ("plus: 1", "times: 2"), ("times: 2", "plus: 1")):
         x = 3 if "plus" in chain[0] or "times" in chain[0] else "abcd"
@@ -368,7 +420,12 @@ BATTERIES = {"C04": c04, "C05": c05, "C06": c06, "C07": c07, "C10": c10, "C13": 
 
 def battery(prop, thorough=False):
     if prop == "C02":
-        out = []
+        out = [R("{% tablerow x in a cols:0 %}{{x}}{% endtablerow %}", {"no_panic": True}, {"a": [1, 2]}),
+               R("{% tablerow x in a cols:c %}{{x}}{% endtablerow %}", {"no_panic": True}, {"a": [1, 2], "c": 0}),
+               R("{% cycle n: %}", {"no_panic": True}), R("{% for i in (1..3) %}{% cycle 'g': %}{% endfor %}", {"no_panic": True}),
+               R("{{ 99999999999999999999 }}", {"no_panic": True}, None, "C01 territory (parse_literal); reported only if it panics at render"),
+               R("{{ 'abc' | slice: 1, 9223372036854775807 }}", {"no_panic": True}),
+               R("{{ a | first }}{{ a | last }}{{ a | size }}{{ a | join: ',' }}{{ a | sort | reverse | uniq | compact | join: ',' }}", {"no_panic": True}, {"a": [3, None, "x", 1.5, [1], {"k": 1}]})]
         for p, f in BATTERIES.items():
             for w in f():
                 if w["kind"] == "render":
